@@ -823,6 +823,12 @@ func (w *World) buildHandler() {
 		// the same two middlewares as the first thing that looks the user up (the access middleware behind them)
 		"/q/lock":    lock.Middleware(ab)(authboss.Middleware2(ab, authboss.RequireNone, resp)(probe("lock"))),
 		"/q/confirm": confirm.Middleware(ab)(authboss.Middleware2(ab, authboss.RequireNone, resp)(probe("confirm"))),
+		// the application's own sign-out, built from the documented helpers (not the logout module)
+		"/signout": http.HandlerFunc(func(rw http.ResponseWriter, r *http.Request) {
+			authboss.DelAllSession(rw, ab.Config.Storage.SessionStateWhitelistKeys)
+			authboss.DelKnownCookie(rw)
+			rw.WriteHeader(204)
+		}),
 		"/set": http.HandlerFunc(func(rw http.ResponseWriter, r *http.Request) {
 			k, v := r.URL.Query().Get("k"), r.URL.Query().Get("v")
 			for _, ak := range AppKeys {
